@@ -1520,9 +1520,17 @@ pub fn run_case<C: Caps>(case: &SeqCase, mode: &Mode) -> Result<SeqFacts, Violat
                 }
             }
         } else {
-            let ex = s.apply(op)?;
-            s.check_events(op, &ex)?;
-            s.scan()?;
+            let restricted = matches!(op, SOp::RestrictMut(..));
+            let retag = |mut v: Violation| {
+                // a restricted join that disturbs other components or events is C13's business
+                if restricted && (v.prop == mode.diff_tag || v.prop == "C12") {
+                    v.prop = "C13".to_string();
+                }
+                v
+            };
+            let ex = s.apply(op).map_err(retag)?;
+            s.check_events(op, &ex).map_err(retag)?;
+            s.scan().map_err(retag)?;
         }
         if let Some(log) = with_ledger(|l| l.drop_log.take()) {
             s.facts.destroyed_in_last_op = log;
@@ -1634,6 +1642,22 @@ pub fn case_strategy(kinds: Vec<Kind>, p: SeqProfile, max_ops: usize) -> impl St
         pool_strategy(),
         proptest::collection::vec(sop_strategy(p), 0..=max_ops),
     )
+        .prop_map(|(kind, pool, ops)| SeqCase { kind, pool, ops })
+}
+
+/// Sequences for C13: content-changing operations interleaved with many restricted joins.
+pub fn restrict_case_strategy(max_ops: usize) -> impl Strategy<Value = SeqCase> {
+    let pat = || proptest::collection::vec(any::<bool>(), 1..6);
+    let how = prop_oneof![Just(DelHow::Now), Just(DelHow::AtomicMaintain)];
+    let op = prop_oneof![
+        8 => (any::<u16>(), 1u32..1000).prop_map(|(s, p)| SOp::Insert(s, p)),
+        2 => any::<u16>().prop_map(SOp::Remove),
+        1 => (any::<u16>(), how).prop_map(|(s, h)| SOp::DeleteEntity(s, h)),
+        1 => Just(SOp::CreateEntity),
+        1 => any::<bool>().prop_map(SOp::SetEmission),
+        8 => (pat(), 1u32..1000, any::<bool>()).prop_map(|(v, p, l)| SOp::RestrictMut(v, p, l)),
+    ];
+    (proptest::sample::select(all_kinds()), pool_strategy(), proptest::collection::vec(op, 0..=max_ops))
         .prop_map(|(kind, pool, ops)| SeqCase { kind, pool, ops })
 }
 
